@@ -729,6 +729,60 @@ pub(crate) fn run(
     }
 }
 
+/// Hooks for the external verification harness (`--cfg fancy_regex_verif`). Not part of the API.
+#[cfg(fancy_regex_verif)]
+#[doc(hidden)]
+pub mod verif_hooks {
+    use super::State;
+    use alloc::vec::Vec;
+
+    /// Thin forwarding wrapper over the private backtracking `State`.
+    pub struct StateH(State);
+
+    impl core::fmt::Debug for StateH {
+        fn fmt(&self, f: &mut core::fmt::Formatter<'_>) -> core::fmt::Result {
+            write!(f, "StateH({:?})", self.0.saves)
+        }
+    }
+
+    #[allow(missing_docs)]
+    impl StateH {
+        pub fn new(n_saves: usize, max_stack: usize) -> StateH {
+            StateH(State::new(n_saves, max_stack, 0))
+        }
+        pub fn push(&mut self, pc: usize, ix: usize) -> bool {
+            self.0.push(pc, ix).is_ok()
+        }
+        pub fn pop(&mut self) -> (usize, usize) {
+            self.0.pop()
+        }
+        pub fn save(&mut self, slot: usize, val: usize) {
+            self.0.save(slot, val)
+        }
+        pub fn get(&self, slot: usize) -> usize {
+            self.0.get(slot)
+        }
+        pub fn stack_push(&mut self, val: usize) {
+            self.0.stack_push(val)
+        }
+        pub fn stack_pop(&mut self) -> usize {
+            self.0.stack_pop()
+        }
+        pub fn backtrack_count(&self) -> usize {
+            self.0.backtrack_count()
+        }
+        pub fn backtrack_cut(&mut self, count: usize) {
+            self.0.backtrack_cut(count)
+        }
+        pub fn saves(&self) -> Vec<usize> {
+            self.0.saves.clone()
+        }
+        pub fn explicit_sp(&self) -> usize {
+            self.0.explicit_sp
+        }
+    }
+}
+
 #[cfg(test)]
 mod tests {
     use super::*;
